@@ -47,6 +47,11 @@ func (m msgServer) CreateHTLC(
 	if m.k.blockedAddrs[msg.To] {
 		return nil, errorsmod.Wrapf(sdkerrors.ErrUnauthorized, "%s is a module account", msg.To)
 	}
+	// the escrow account itself must not be a recipient either: a claim would pay the escrow
+	// from the escrow and strand the amount there (it is not necessarily bank-blocked)
+	if to.Equals(m.k.accountKeeper.GetModuleAddress(types.ModuleName)) {
+		return nil, errorsmod.Wrapf(sdkerrors.ErrUnauthorized, "%s is the htlc module account", msg.To)
+	}
 
 	ctx := sdk.UnwrapSDKContext(goCtx)
 	id, err := m.k.CreateHTLC(
